@@ -98,6 +98,38 @@ class SymBool:
         return f"<b {self.z}>"
 
 
+class SymZ:
+    """a mathematical integer (z3 Int term): linear arithmetic and comparisons only.  Python ints are unbounded, so no machine-arithmetic
+    assumption is made."""
+    __slots__ = ("z",)
+
+    def __init__(self, z):
+        self.z = z
+
+    def __bool__(self):
+        raise Unsupported("native truth test of a symbolic integer")
+
+    def __eq__(self, o):
+        raise Unsupported("native == on a symbolic integer")
+
+    def __hash__(self):
+        raise Unsupported("hash of a symbolic integer")
+
+    def __index__(self):
+        raise Unsupported("symbolic integer used as an index")
+
+    def __repr__(self):
+        return f"<z {self.z}>"
+
+
+def _zi(x):
+    if isinstance(x, SymZ):
+        return x.z
+    if isinstance(x, bool) or not isinstance(x, int):
+        raise Unsupported(f"arithmetic between a symbolic integer and {type(x).__name__}")
+    return z3.IntVal(x)
+
+
 class SymChar:
     """a character that is '1' if z else '0'"""
     __slots__ = ("z",)
@@ -165,7 +197,7 @@ def _chars(o):
 
 
 def is_sym(x):
-    return isinstance(x, (SymExpr, SymBool, SymChar, SymStr))
+    return isinstance(x, (SymExpr, SymBool, SymChar, SymStr, SymZ))
 
 
 # ----------------------------------------------------------------------------------------------
@@ -459,6 +491,15 @@ class VC:
         return SymInt([c for c in reversed(s)])  # little-endian characters
 
     def binop(self, op, l, r):
+        if isinstance(l, SymZ) or isinstance(r, SymZ):
+            a, b = _zi(l), _zi(r)
+            if op == "Add":
+                return SymZ(a + b)
+            if op == "Sub":
+                return SymZ(a - b)
+            if op == "Mult" and not (isinstance(l, SymZ) and isinstance(r, SymZ)):
+                return SymZ(a * b)
+            raise Unsupported(f"operator {op} on a symbolic integer")
         if isinstance(l, SymExpr) or isinstance(r, SymExpr):
             if op == "BitAnd":
                 return m_and(l, r)
@@ -492,6 +533,11 @@ class VC:
             if op == "Invert":
                 return m_not(v)
             raise Unsupported(f"unary {op} on opaque expression")
+        if isinstance(v, SymZ):
+            if op == "USub":
+                return SymZ(-v.z)
+            if op == "UAdd":
+                return v
         if is_sym(v):
             raise Unsupported(f"unary {op} on symbolic value")
         return {"Invert": operator.invert, "USub": operator.neg, "UAdd": operator.pos}[op](v)
@@ -499,6 +545,13 @@ class VC:
     def compare(self, op, l, r):
         if op in ("Is", "IsNot"):
             return CMPS[op](l, r)
+        if isinstance(l, SymZ) or isinstance(r, SymZ):
+            if op in ("In", "NotIn"):
+                raise Unsupported("membership of a symbolic integer")
+            if (l is None or r is None) and op in ("Eq", "NotEq"):
+                return op == "NotEq"
+            a, b = _zi(l), _zi(r)
+            return SymBool({"Eq": a == b, "NotEq": a != b, "Lt": a < b, "LtE": a <= b, "Gt": a > b, "GtE": a >= b}[op])
         if isinstance(l, SymChar) or isinstance(r, SymChar):
             if isinstance(r, SymChar):
                 l, r = r, l
@@ -550,6 +603,8 @@ class VC:
             return len(x) > 0
         if isinstance(x, SymInt):
             raise Unsupported("truth of symbolic int")
+        if isinstance(x, SymZ):
+            return SymBool(x.z != 0)
         return bool(x)
 
     def truth(self, x):
